@@ -110,6 +110,7 @@ PROPS = {
             R("h23", "c19", "TestC19_FindRoundTrip", (8000, 8), (1000000, 16, 10000)),
             R("h23", "c19", "TestC19_Negotiation", (10000, 4), (2000000, 16, 10000)),
             R("h23", "c19", "TestC19_APIError", (20000, 2), (1000000, 8, 3000)),
+            R("h23", "c19", "TestC19_FindBatch", (2000, 4), (200000, 16, 3000)),
         ],
     },
     "C03": {
